@@ -64,6 +64,7 @@ class Engine:
             lg.removeHandler(h)
         lg.addHandler(logging.NullHandler())
         lg.propagate = False
+        self.ref_world = procs.RefWorld()
 
     # -- plans -----------------------------------------------------------------------------------
     def gen_plan(self, rng, config, tier, prop):
@@ -259,7 +260,12 @@ class Engine:
 
     # -- reference model ------------------------------------------------------------------------------
     def reference(self, plan, sb, fired, observed=None):
-        """Staged exactly as the statement's categories.  Returns dict(expected, lo, hi, why)."""
+        """Staged exactly as the statement's categories.  Returns dict(expected, lo, hi, why).  Computed in the
+        reference process (a separate copy of the pymoca package, see procs.RefWorld)."""
+        with self.ref_world:
+            return self._reference(plan, sb, fired, observed)
+
+    def _reference(self, plan, sb, fired, observed=None):
         import pymoca.ast as A
         import pymoca.parser as P
         import pymoca.tree as T
